@@ -207,8 +207,16 @@ func (e *EncryptedISO) ReadAt(b []byte, off int64) (int, error) {
 		}
 	}
 
+	// A sector cut by the end of file is there as a whole (and passed as it is). But "end of file" in the middle
+	// of a sector has to be the end of file indeed: if file goes on, bytes are missing like after any failed read.
+	if errors.Is(err, io.EOF) && read%int(sectorSize) != 0 {
+		if stat, statErr := e.privateFile.Stat(); statErr != nil || sizeBytes(stat.Size()) != start+sizeBytes(read) {
+			err = io.ErrUnexpectedEOF
+		}
+	}
+
 	// Underlying read that failed in the middle of a sector leaves a piece which can't be decrypted:
-	// it is not a part of result (sector cut by the end of file is another thing, it is there as a whole).
+	// it is not a part of result.
 	if err != nil && !errors.Is(err, io.EOF) {
 		read -= read % int(sectorSize)
 	}
